@@ -3,7 +3,4 @@
    c3 is a connection of endpoint B. *)
 EXTENDS RelayAdmission
 MC_KeyOf == [c \in Conns |-> IF c = "c3" THEN "B" ELSE "A"]
-MC_ScriptFull == <<"ping", "deliver">>
-MC_ScriptPing == <<"ping">>
-MC_ScriptNone == <<>>
 =============================================================================
